@@ -1,47 +1,50 @@
-(** C17 proofs, part (ii): values as JSON (model: Model/UasmValue.v).
-    The general round trip [of_json (to_json v) = Some v] does NOT hold for the current code; the
-    witnesses below are confirmed on the implementation by the harness (c17 search / tie-values).
-    A proof of the round trip for the remaining values (plain_json) is not carried yet: the tie
-    compares model and implementation on generated values on every run. *)
+(** C17 proofs, part (ii): records of the defects of the value <-> JSON representation BEFORE
+    /repo c00f690, 6da1960, 1df8995 (model with [cur = false]); each witness was confirmed on
+    the implementation of that time, and each is read back by the current representation
+    (model with [cur = true]; the general theorem is in UasmValueRt.v). *)
 From Coq Require Import List NArith Bool.
 From UV Require Import Base.Value Model.Uasm Model.UasmValue.
 Import ListNotations.
 Open Scope N_scope.
 
-(** the string "NaN" is written as the JSON string "NaN", which Num's ArrayRep::Scalar(F64Rep)
-    accepts before Char's List(String) is tried: it reads back as the number NaN *)
-Theorem value_json_refuted_string :
-  exists v m', of_json (to_json v) = Some m' /\ mval_same m' (MV v None None) = false /\
+(** the string "NaN" was written as the JSON string "NaN", which Num's ArrayRep::Scalar(F64Rep)
+    accepts before Char's List(String) is tried: it read back as the number NaN *)
+Theorem value_json_refuted_string_pre :
+  exists v m', of_json false (to_json false v) = Some m' /\ mval_same m' (MV v None None) = false /\
                m' = MV (VNum [] [F_NAN_BITS]) None None.
 Proof. exists (VChar [3%nat] S_NAN). eexists. split; [vm_compute; reflexivity|]. split; reflexivity. Qed.
 
-(** every reserved spelling is affected *)
-Theorem value_json_refuted_spellings :
-  forallb (fun s => match of_json (to_json (VChar [length s] s)) with
+Theorem value_json_refuted_spellings_pre :
+  forallb (fun s => match of_json false (to_json false (VChar [length s] s)) with
                     | Some (MV (VNum [] [_]) None None) => true | _ => false end)
           [S_NAN; S_W; S_EMPTY; S_TOMB; S_INF; S_NINF] = true.
 Proof. vm_compute. reflexivity. Qed.
 
-(** a complex number with a non-finite part is written with null and cannot be read at all *)
-Theorem value_json_refuted_complex :
-  exists v, of_json (to_json v) = None.
+(** a complex number with a non-finite part was written with null and could not be read at all *)
+Theorem value_json_refuted_complex_pre : exists v, of_json false (to_json false v) = None.
 Proof. exists (VCplx [] [(F_NAN_BITS, 4607182418800017408)]). vm_compute. reflexivity. Qed.
 
-(** a map with character keys and an empty box array of rank 2 reads back as a (malformed)
-    character array: Char's Full(Shape, String, ArrayMeta) accepts [shape, "keys", {..}] *)
+(** a negative NaN (or any NaN with a payload) came back as f64::NAN *)
+Theorem value_json_refuted_nan_pre :
+  exists x, of_json false (to_json false (VNum [] [x])) = Some (MV (VNum [] [F_NAN_BITS]) None None) /\ x <> F_NAN_BITS.
+Proof. exists 18444492273895866368. split; [vm_compute; reflexivity | discriminate]. Qed.
+
+(** all of them come back now *)
+Example value_json_current_reads_witnesses :
+  forallb (fun v => opt_eqb mval_same (of_json true (to_json true v)) (Some (MV v None None)))
+    [VChar [3%nat] S_NAN; VChar [1%nat] S_W; VChar [5%nat] S_EMPTY; VChar [4%nat] S_TOMB; VChar [1%nat] S_INF;
+     VChar [2%nat] S_NINF; VCplx [] [(F_NAN_BITS, 4607182418800017408)]; VCplx [2%nat] [(F_INF_BITS, F_NEG_INF); (0, F_WILD_NAN)];
+     VNum [] [18444492273895866368]; VNum [2%nat] [9221120237041090564; F_NAN_BITS];
+     VBox [2%nat] [VChar [3%nat] S_NAN; VCplx [] [(F_NEG_INF, 18444492273895866368)]]] = true.
+Proof. vm_compute. reflexivity. Qed.
+
+(** STILL OPEN in the current representation (labels / map keys are outside [value]): a map with
+    character keys and an empty box array of rank 2 reads back as a (malformed) character array:
+    Char's Full(Shape, String, ArrayMeta) accepts [shape, "keys", {..}] and ignores the unknown
+    field of the metadata *)
 Theorem value_json_refuted_map :
-  exists m j m', mto_json m = Some j /\ of_json j = Some m' /\ mval_same m' m = false.
+  exists m j m', mto_json true m = Some j /\ of_json true j = Some m' /\ mval_same m' m = false.
 Proof.
   exists (MV (VBox [1%nat; 0%nat] []) None (Some (VChar [1%nat] [97]))). eexists. eexists.
   split; [vm_compute; reflexivity|]. split; [vm_compute; reflexivity | reflexivity].
 Qed.
-
-(** sample of the round trip where it does hold (a test, not the general theorem) *)
-Example value_json_roundtrip_samples :
-  forallb (fun v => opt_eqb mval_same (of_json (to_json v)) (Some (MV v None None)))
-    [VNum [] [4607182418800017408]; VNum [2%nat] [F_NAN_BITS; F_NEG_INF]; VByte [] [7]; VByte [3%nat] [1;2;3];
-     VByte [2%nat;2%nat] [1;2;3;4]; VChar [] [97]; VChar [0%nat] []; VChar [2%nat;1%nat] [97;98];
-     VCplx [] [(4607182418800017408, 0)]; VCplx [0%nat] []; VCplx [2%nat] [(0,0);(0,0)];
-     VBox [] [VByte [] [1]]; VBox [0%nat] []; VBox [0%nat; 3%nat] [];
-     VBox [2%nat] [VChar [2%nat] [104;105]; VBox [1%nat] [VByte [0%nat;2%nat] []]]] = true.
-Proof. vm_compute. reflexivity. Qed.
